@@ -167,7 +167,11 @@ DupAt(s, i) == SubSeq(s, 1, i) \o SubSeq(s, i, Len(s))
 Mutations(s) == {SubSeq(s, 1, i) : i \in 0..Len(s)} \cup {DelAt(s, i) : i \in 1..Len(s)} \cup {DupAt(s, i) : i \in 1..Len(s)}
 
 \* the grammar scenario: the string, what it means, and (complete commands only) its mutations
-GScenario == [kind |-> "grammar", str |-> str, hist |-> hist, exp |-> SubsJson(NF(st.subs)), f |-> Features(hist, st),
+\* In addition every BYTE prefix of str is a robustness scenario (path data that ends in the middle of a number, before a
+\* flag, after a separator ...).  The emitted states of a behaviour are the command boundaries, so the prefixes that end
+\* inside the last command - the driver cuts the last PrefixWindow characters - cover every byte position of every string.
+PrefixWindow == 40
+GScenario == [kind |-> "grammar", cutlast |-> PrefixWindow, str |-> str, hist |-> hist, exp |-> SubsJson(NF(st.subs)), f |-> Features(hist, st),
               \* short strings, and strings that end in an arc command (truncated arcs: flags, 7 arguments)
               mut |-> IF Len(str) <= 14 \/ (Upper(prev) = "A" /\ Len(str) <= 28) THEN Mutations(str) ELSE {}]
 GEmit == (ph = "cmd" /\ Len(hist) >= EmitFrom /\ EmitFrom > 0) => PrintT("@@" \o ToJson(GScenario))
